@@ -396,6 +396,20 @@ pub struct ModelOutcome {
 }
 
 pub const MODEL_FUEL: u64 = 4_000_000;
+
+thread_local! {
+    static FUEL: std::cell::Cell<u64> = std::cell::Cell::new(MODEL_FUEL);
+}
+
+/// Step budget of the model for the following runs on this thread (small programs need far less than
+/// the default, and diverging ones then cost little).
+pub fn set_model_fuel(f: u64) {
+    FUEL.with(|c| c.set(f));
+}
+
+fn model_fuel() -> u64 {
+    FUEL.with(|c| c.get())
+}
 const MAX_DEPTH: u32 = 80_000;
 
 impl<'a> Interp<'a> {
@@ -405,7 +419,7 @@ impl<'a> Interp<'a> {
             globals: Vec::new(),
             frames: Vec::new(),
             out: String::new(),
-            fuel: MODEL_FUEL,
+            fuel: model_fuel(),
             depth: 0,
             effects: 0,
             effect_limit: None,
@@ -432,7 +446,7 @@ impl<'a> Interp<'a> {
     /// A line that fails before running contributes nothing, not even its declarations.
     pub fn line(&mut self, ast: &'a [Stmt]) -> ModelOutcome {
         self.out.clear();
-        self.fuel = MODEL_FUEL;
+        self.fuel = model_fuel();
         self.depth = 0;
         self.effects = 0;
         self.frames.clear();
